@@ -75,8 +75,15 @@ def run(ctx):
             b = f.body
             kind_consistent(chk, "C19.a", f, k)
             tm = [c for c in table_muts(f, seen_f) if c.fn is f]
+            # `seen.entry(k).or_insert(())` tracks the key exactly like `seen.insert(k, ())` (a set kept as a map to ()): the
+            # entry() call carries the key; the or_insert* that completes it is not a second mutation
+            ent_ = [c for c in tm if callee_method_name(c) == "entry"]
+            if len(ent_) == 1 and len(tm) == 1 + len([c for c in nonforeign_calls(f) if c.fn is f and callee_method_name(c) in ("or_insert", "or_insert_with", "or_default") and "indexmap" in (c.resolved or "")]):
+                tm = ent_
+            else:
+                ent_ = []
             goc = [c for c in nonforeign_calls(f) if c.fn is f and c.is_(f"Registry<K, S>::get_or_create_{k}")]
-            ok = len(tm) == 1 and callee_method_name(tm[0]) == "insert" and len(goc) == 1 and not [r for r in b.return_blocks() if r in b.reachable(0, cut={tm[0].bb})] and not [1 for dd, lab in gates(b, tm[0].bb) if lab in (True, False, "Some", "None", "Ok", "Err")]
+            ok = len(tm) == 1 and (callee_method_name(tm[0]) == "insert" or bool(ent_)) and len(goc) == 1 and not [r for r in b.return_blocks() if r in b.reachable(0, cut={tm[0].bb})] and not [1 for dd, lab in gates(b, tm[0].bb) if lab in (True, False, "Some", "None", "Ok", "Err")]
             if ok:
                 ck = strip_sym(arg_syms(tm[0])[1])
                 ca = ctor_args(ck, "CompositeKey")
